@@ -514,7 +514,14 @@ pub fn bind_if_stat(binder: &mut FlowBinder, if_stat: LuaIfStat, current: FlowId
     if let Some(else_clause) = if_stat.get_else_clause() {
         let else_block = else_clause.get_block();
         if let Some(else_block) = else_block {
-            let block_id = bind_block(binder, else_block, else_label);
+            // the `else` of an `if` in dead code is dead as well: its label has no antecedent, and a
+            // `break` inside it must not reach the code after the loop
+            let else_entry = if current == binder.unreachable {
+                binder.unreachable
+            } else {
+                else_label
+            };
+            let block_id = bind_block(binder, else_block, else_entry);
             binder.add_antecedent(post_if_label, block_id);
         } else {
             // An empty `else` has no block node, but its path still reaches the code after the `if`.
